@@ -10,6 +10,7 @@ from hypothesis import strategies as st
 from .. import gen, observe, h5spec
 from ..core import Violation
 from . import c01
+from ..cli import SUB
 
 ID = "C04"
 LEVEL = "exploration"
@@ -40,7 +41,8 @@ def cases(draw, tier):
         spec["obs_gmd"] = spec["samp_gmd"] = None
     return {"table": spec, "compress": draw(st.booleans()), "writer": writer,
             "generated_by": draw(gen._H5TEXT1),
-            "date": c01.date_to_json(draw(c01.DATES))}
+            "date": c01.date_to_json(draw(c01.DATES)),
+            "sub": writer == "convert" and draw(st.sampled_from(SUB))}
 
 
 def strategy(tier):
@@ -96,13 +98,13 @@ def check(case, rec):
             from biom import load_table
             jpath = os.path.join(d, "in.json")
             c01.write(t, jpath + ".h5", dict(case, writer="to_hdf5"))
-            try:
-                convert.main(["-i", jpath + ".h5", "-o", path, "--to-hdf5"],
-                             standalone_mode=False)
-            except SystemExit as e:
-                if e.code not in (0, None):
-                    raise Violation("cli-exit", "convert exited %r" %
-                                    (e.code,))
+            from ..cli import invoke
+            rc, out_ = invoke(convert, "convert",
+                              ["-i", jpath + ".h5", "-o", path, "--to-hdf5"],
+                              case.get("sub", False))
+            if rc != 0:
+                raise Violation("cli-exit", "convert exited %r: %s" %
+                                (rc, out_[-300:]))
             t = load_table(jpath + ".h5")
             src = observe.snapshot(t)
             gen_by = None
